@@ -21,6 +21,7 @@ import (
 	"path/filepath"
 	"sort"
 	"strings"
+	"sync"
 
 	"ariga.io/atlas/sql/migrate"
 
@@ -58,9 +59,19 @@ func canon(kind string, b []byte) []byte {
 func nEdit(c *rt.Ctx) int { return c.Pick(8, 24) }
 
 func allInputs(seed uint64, ne int) []*Input {
+	per := make([][]*Input, len(dmodel.Dialects))
+	var wg sync.WaitGroup
+	for i, d := range dmodel.Dialects {
+		wg.Add(1)
+		go func() {
+			defer wg.Done()
+			per[i] = Inputs(seed, d, ne)
+		}()
+	}
+	wg.Wait()
 	var out []*Input
-	for _, d := range dmodel.Dialects {
-		out = append(out, Inputs(seed, d, ne)...)
+	for _, p := range per {
+		out = append(out, p...)
 	}
 	return out
 }
